@@ -9,7 +9,7 @@
      - outside every declaration (and not behind an unfinished last type declaration) the answer
        is the list of declaration starters, with the `main` snippet iff `main` is not a procedure
        of the global table. *)
-From Coq Require Import String.
+From Coq Require Import String PeanoNat Lia.
 From Spl Require Import Model.Completion.
 
 Local Open Scope nat_scope.
@@ -388,3 +388,294 @@ Proof.
   pose proof (H refute_text d 0%N 30%N c Ed He Ec) as Hm.
   vm_compute in Ed. injection Ed as <-. vm_compute in Ec. injection Ec as <-. vm_compute in Hm. discriminate.
 Qed.
+
+(* ------------------------------------------------------------------------------------------ *)
+(* robustness: under an explicit well-formedness predicate on the tree, `propose` never panics  *)
+
+(* a statement behind a Reference: its range starts at its own Reference (i_s = 0), is not empty,
+   and every nested statement lies inside it *)
+Fixpoint stmt_wf (s : stmt) : Prop :=
+  i_s (stmt_info s) = 0 /\ 0 < i_e (stmt_info s) /\
+  let child (o : option (stmt * nat)) : Prop :=
+    match o with
+    | Some (c, off) => off + i_e (stmt_info c) <= i_e (stmt_info s) /\ stmt_wf c
+    | None => True
+    end in
+  match s with
+  | SIf _ t e _ => child t /\ child e
+  | SWhile _ b _ => child b
+  | SBlock body _ =>
+      (fix go (l : list (stmt * nat)) : Prop :=
+         match l with
+         | [] => True
+         | (c, off) :: r => (off + i_e (stmt_info c) <= i_e (stmt_info s) /\ stmt_wf c) /\ go r
+         end) body
+  | _ => True
+  end.
+
+Definition child_wf (len : nat) (co : stmt * nat) : Prop :=
+  snd co + i_e (stmt_info (fst co)) <= len /\ stmt_wf (fst co).
+
+Lemma stmt_wf_head s : stmt_wf s -> i_s (stmt_info s) = 0 /\ 0 < i_e (stmt_info s).
+Proof. destruct s; cbn [stmt_wf]; tauto. Qed.
+
+Lemma block_wf body inf : stmt_wf (SBlock body inf) -> Forall (child_wf (i_e inf)) body.
+Proof.
+  cbn [stmt_wf stmt_info]. intros (_ & _ & H). induction body as [|[c off] r IH]; [constructor|].
+  destruct H as [H1 H2]. constructor; [exact H1 | exact (IH H2)].
+Qed.
+
+(* the three slicing steps in front of every nested statement succeed *)
+Lemma child_slices (toks : list token) c off :
+  off + i_e (stmt_info c) <= length toks -> i_s (stmt_info c) = 0 -> 0 < i_e (stmt_info c) ->
+  exists sl tr,
+    slice_from toks off = ROk (skipn off toks) /\
+    slice (skipn off toks) (info_range (stmt_info c)) = ROk sl /\ length sl = i_e (stmt_info c) /\
+    info_text_range sl (stmt_info c) = ROk tr.
+Proof.
+  intros Hlen Hs He. set (n := i_e (stmt_info c)) in *.
+  exists (firstn n (skipn off toks)).
+  assert (Hl : length (firstn n (skipn off toks)) = n).
+  { rewrite firstn_length, skipn_length. lia. }
+  assert (Hne : firstn n (skipn off toks) <> []) by (intros E; rewrite E in Hl; cbn in Hl; lia).
+  destruct (firstn n (skipn off toks)) as [|x r] eqn:Esl; [congruence|].
+  assert (Hrev : exists y, hd_error (rev (x :: r)) = Some y).
+  { destruct (rev (x :: r)) as [|y r'] eqn:Er; [|now exists y].
+    apply (f_equal (@length token)) in Er. rewrite rev_length in Er. discriminate. }
+  destruct Hrev as [y Hy].
+  exists (ts x, te y). repeat split.
+  - unfold slice_from. replace (Nat.ltb (length toks) off) with false by (symmetry; apply Nat.ltb_ge; lia). reflexivity.
+  - unfold slice, info_range. cbn [fst snd]. rewrite Hs. fold n.
+    replace (Nat.ltb n 0) with false by reflexivity.
+    rewrite skipn_length. replace (Nat.ltb (length toks - off) n) with false by (symmetry; apply Nat.ltb_ge; lia).
+    rewrite Nat.sub_0_r. cbn [skipn]. now rewrite Esl.
+  - exact Hl.
+  - unfold info_text_range, byte_range. cbn [e_s e_e]. rewrite Hs. fold n.
+    replace (Nat.ltb 0 n) with true by (symmetry; apply Nat.ltb_lt; lia).
+    replace (Nat.ltb (length (x :: r)) n) with false by (symmetry; apply Nat.ltb_ge; lia).
+    rewrite Nat.sub_0_r. cbn [skipn]. rewrite <- Hl, firstn_all. cbn [hd_error]. rewrite Hy. reflexivity.
+Qed.
+
+Definition stmt_total (s : stmt) : Prop :=
+  stmt_wf s -> forall position toks last prev_if l g,
+    length toks = i_e (stmt_info s) -> exists r, complete_statement s position toks last prev_if l g = ROk r.
+
+Lemma complete_statements_total : forall body,
+  Forall (fun x => stmt_total (fst x)) body ->
+  forall position toks last prev_if l g,
+    Forall (child_wf (length toks)) body ->
+    exists r, complete_statements body position toks last prev_if l g = ROk r.
+Proof.
+  induction body as [|[c off] rest IH]; intros HF position toks last prev_if l g Hw; cbn [complete_statements].
+  - eexists; reflexivity.
+  - inversion HF as [|? ? Hc Hrest]; subst. inversion Hw as [|? ? Hcw Hrw]; subst.
+    destruct Hcw as [Hle Hwf]. cbn [fst snd] in *. destruct (stmt_wf_head c Hwf) as [Hs He].
+    destruct (child_slices toks c off Hle Hs He) as (sl & tr & E1 & E2 & Hl & E3).
+    rewrite E1. cbn [rbind]. rewrite E2. cbn [rbind]. rewrite E3. cbn [rbind].
+    destruct (in_range tr position); [exact (Hc Hwf _ _ _ _ _ _ Hl) | exact (IH Hrest _ _ _ _ _ _ Hrw)].
+Qed.
+
+Lemma branch_total (b : option (stmt * nat)) position toks last l g (otherwise : res (option (list item))) :
+  opt_stmt_P stmt_total b ->
+  match b with Some (c, off) => off + i_e (stmt_info c) <= length toks /\ stmt_wf c | None => True end ->
+  (exists r, otherwise = ROk r) ->
+  exists r,
+  match b with
+  | Some (st, off) =>
+      do tl <- slice_from toks off;
+      do sl <- slice tl (info_range (stmt_info st));
+      do tr <- info_text_range sl (stmt_info st);
+      if in_range tr position then complete_statement st position sl last false l g else otherwise
+  | None => otherwise
+  end = ROk r.
+Proof.
+  intros Hb Hw Ho. destruct b as [[c off]|]; [|exact Ho]. cbn [opt_stmt_P] in Hb. destruct Hw as [Hle Hwf].
+  destruct (stmt_wf_head c Hwf) as [Hs He].
+  destruct (child_slices toks c off Hle Hs He) as (sl & tr & E1 & E2 & Hl & E3).
+  rewrite E1. cbn [rbind]. rewrite E2. cbn [rbind]. rewrite E3. cbn [rbind].
+  destruct (in_range tr position); [exact (Hb Hwf _ _ _ _ _ _ Hl) | exact Ho].
+Qed.
+
+Lemma complete_statement_total : forall s, stmt_total s.
+Proof.
+  induction s as [inf | v e inf | name args inf | c thn els inf IHt IHe | c b inf IHb | body inf IH | inf] using stmt_ind';
+    intros Hwf position toks last prev_if l g Hlen.
+  - cbn [complete_statement]. destruct (prev_if && is_rcurly (tk last)); eexists; reflexivity.
+  - cbn [complete_statement]. destruct (prev_if && is_rcurly (tk last)); eexists; reflexivity.
+  - cbn [complete_statement]. destruct (prev_if && is_rcurly (tk last)); eexists; reflexivity.
+  - cbn [complete_statement]. destruct (prev_if && is_rcurly (tk last)); [eexists; reflexivity|].
+    cbn [stmt_wf stmt_info] in Hwf. destruct Hwf as (_ & _ & Ht & He). cbn [stmt_info] in Hlen.
+    apply branch_total; [exact IHt | rewrite Hlen; exact Ht |].
+    apply branch_total; [exact IHe | rewrite Hlen; exact He |]. eexists; reflexivity.
+  - cbn [complete_statement]. destruct (prev_if && is_rcurly (tk last)); [eexists; reflexivity|].
+    cbn [stmt_wf stmt_info] in Hwf. destruct Hwf as (_ & _ & Hb). cbn [stmt_info] in Hlen.
+    apply (branch_total b position toks last l g (ROk (complete_vars toks position l LParen))); [exact IHb | rewrite Hlen; exact Hb |].
+    eexists; reflexivity.
+  - rewrite complete_statement_block. destruct (prev_if && is_rcurly (tk last)); [eexists; reflexivity|].
+    apply complete_statements_total; [exact IH|]. cbn [stmt_info] in Hlen. rewrite Hlen. exact (block_wf body inf Hwf).
+  - cbn [complete_statement]. destruct (prev_if && is_rcurly (tk last)); eexists; reflexivity.
+Qed.
+
+(* ---- declarations and the document ---- *)
+Lemma text_range_total (sl : list token) inf :
+  i_s inf = 0 -> 0 < i_e inf -> i_e inf <= length sl -> exists tr, info_text_range sl inf = ROk tr.
+Proof.
+  intros Hs He Hl. unfold info_text_range, byte_range. cbn [e_s e_e]. rewrite Hs.
+  replace (Nat.ltb 0 (i_e inf)) with true by (symmetry; apply Nat.ltb_lt; lia).
+  replace (Nat.ltb (length sl) (i_e inf)) with false by (symmetry; apply Nat.ltb_ge; lia).
+  rewrite Nat.sub_0_r. cbn [skipn].
+  assert (Hn : length (firstn (i_e inf) sl) = i_e inf) by (rewrite firstn_length; lia).
+  destruct (firstn (i_e inf) sl) as [|x r] eqn:E; [cbn in Hn; lia|].
+  destruct (rev (x :: r)) as [|y r'] eqn:Er.
+  { apply (f_equal (@length token)) in Er. rewrite rev_length in Er. discriminate. }
+  cbn [hd_error]. eexists; reflexivity.
+Qed.
+
+Definition decl_cwf (toks : list token) (go : gdecl * nat) : Prop :=
+  i_s (gdecl_info (fst go)) = 0 /\ 0 < i_e (gdecl_info (fst go)) /\
+  snd go + i_e (gdecl_info (fst go)) <= length toks /\
+  match fst go with
+  | GProc pd => Forall (child_wf (i_e (pd_info pd))) (pd_stmts pd)
+  | _ => True
+  end.
+
+Definition compl_wf (d : doc) : Prop := Forall (decl_cwf (d_toks d)) (pg_decls (d_ast d)).
+
+Lemma find_decl_total toks idx : forall decls,
+  Forall (decl_cwf toks) decls ->
+  exists r, find_decl toks idx decls = ROk r /\ (forall go, r = Some go -> In go decls).
+Proof.
+  induction decls as [|[g off] rest IH]; intros HF; cbn [find_decl].
+  - exists None. split; [reflexivity | discriminate].
+  - inversion HF as [|? ? Hd Hr]; subst. destruct Hd as (Hs & He & Hl & _). cbn [fst snd] in *.
+    unfold slice_from. replace (Nat.ltb (length toks) off) with false by (symmetry; apply Nat.ltb_ge; lia).
+    cbn [rbind].
+    destruct (text_range_total (skipn off toks) (gdecl_info g) Hs He) as [tr Etr]; [rewrite skipn_length; lia|].
+    rewrite Etr. cbn [rbind]. destruct (in_range tr idx).
+    + eexists. split; [reflexivity|]. intros go [= <-]. now left.
+    + destruct (IH Hr) as (r & Er & Hin). exists r. split; [exact Er|]. intros go Hgo. right. now apply Hin.
+Qed.
+
+Lemma decl_slices toks g off :
+  decl_cwf toks (g, off) ->
+  slice_from toks off = ROk (skipn off toks) /\
+  slice (skipn off toks) (info_range (gdecl_info g)) = ROk (firstn (i_e (gdecl_info g)) (skipn off toks)) /\
+  length (firstn (i_e (gdecl_info g)) (skipn off toks)) = i_e (gdecl_info g).
+Proof.
+  intros (Hs & He & Hl & _). cbn [fst snd] in *. repeat split.
+  - unfold slice_from. now replace (Nat.ltb (length toks) off) with false by (symmetry; apply Nat.ltb_ge; lia).
+  - unfold slice, info_range. cbn [fst snd]. rewrite Hs.
+    replace (Nat.ltb (i_e (gdecl_info g)) 0) with false by reflexivity.
+    rewrite skipn_length.
+    replace (Nat.ltb (length toks - off) (i_e (gdecl_info g))) with false by (symmetry; apply Nat.ltb_ge; lia).
+    now rewrite Nat.sub_0_r.
+  - rewrite firstn_length, skipn_length. lia.
+Qed.
+
+Lemma find_in {A} (f : A -> bool) (l : list A) x : find f l = Some x -> In x l.
+Proof. induction l as [|a l IH]; cbn [find]; [discriminate|]. destruct (f a); [intros [= ->]; now left | right; auto]. Qed.
+
+Lemma complete_procedure_total pd position toks g :
+  length toks = i_e (pd_info pd) -> Forall (child_wf (i_e (pd_info pd))) (pd_stmts pd) ->
+  exists r, complete_procedure pd position toks g = ROk r.
+Proof.
+  intros Hlen HF. unfold complete_procedure.
+  destruct (token_before toks position) as [last|]; [|eexists; reflexivity].
+  match goal with |- context [if ?c then _ else _] => destruct c end; [eexists; reflexivity|].
+  assert (Hin : exists b, (match find is_real_stmt (pd_stmts pd) with
+                           | Some (st, off) =>
+                               do tl <- slice_from toks off;
+                               do tr <- info_text_range tl (stmt_info st);
+                               ROk (fst tr <=? position)%N
+                           | None => ROk false
+                           end) = ROk b).
+  { destruct (find is_real_stmt (pd_stmts pd)) as [[st off]|] eqn:Ef; [|eexists; reflexivity].
+    apply find_in in Ef. rewrite Forall_forall in HF. destruct (HF _ Ef) as [Hle Hwf]. cbn [fst snd] in *.
+    destruct (stmt_wf_head st Hwf) as [Hs He].
+    unfold slice_from. replace (Nat.ltb (length toks) off) with false by (symmetry; apply Nat.ltb_ge; lia).
+    cbn [rbind].
+    destruct (text_range_total (skipn off toks) (stmt_info st) Hs He) as [tr Etr]; [rewrite skipn_length; lia|].
+    rewrite Etr. cbn [rbind]. eexists; reflexivity. }
+  destruct Hin as [b Eb]. rewrite Eb. cbn [rbind]. destruct b; [|eexists; reflexivity].
+  apply complete_statements_total.
+  - apply Forall_forall. intros x _. apply complete_statement_total.
+  - now rewrite Hlen.
+Qed.
+
+Lemma last_some_in {A} (l : list A) x : last (map Some l) None = Some x -> In x l.
+Proof.
+  induction l as [|a l IH]; cbn [map last]; [discriminate|].
+  destruct l as [|b l']; [intros [= ->]; now left|]. intros H. right. exact (IH H).
+Qed.
+
+Theorem propose_total d line col : compl_wf d -> exists r, propose d line col = ROk r.
+Proof.
+  intros Hwf. unfold propose, doc_cursor.
+  destruct (find_decl_total (d_toks d) (get_insertion_index line col (d_text d)) _ Hwf) as (r0 & E0 & _).
+  rewrite E0. cbn [rbind c_index].
+  destruct (find_decl_total (d_toks d) (correct_index (get_insertion_index line col (d_text d))) _ Hwf) as (r1 & E1 & Hin).
+  rewrite E1. cbn [rbind].
+  destruct r1 as [[gd off]|].
+  - pose proof (Hin _ eq_refl) as Hd. unfold compl_wf in Hwf. rewrite Forall_forall in Hwf. pose proof (Hwf _ Hd) as Hc.
+    destruct (decl_slices _ _ _ Hc) as (S1 & S2 & S3). rewrite S1. cbn [rbind].
+    destruct gd as [td | pd | inf]; cbn [gdecl_info] in *.
+    + rewrite S2. cbn [rbind]. eexists; reflexivity.
+    + rewrite S2. cbn [rbind]. destruct Hc as (_ & _ & _ & Hst). cbn [fst] in Hst.
+      now apply complete_procedure_total.
+    + eexists; reflexivity.
+  - destruct (last (map Some (pg_decls (d_ast d))) None) as [[[td | pd | inf] off]|] eqn:El; try (eexists; reflexivity).
+    apply last_some_in in El. unfold compl_wf in Hwf. rewrite Forall_forall in Hwf. pose proof (Hwf _ El) as Hc.
+    destruct (decl_slices _ _ _ Hc) as (S1 & S2 & S3). cbn [gdecl_info] in *. rewrite S1. cbn [rbind]. rewrite S2. cbn [rbind].
+    destruct (last (map Some _) None) as [lt|]; [|eexists; reflexivity].
+    destruct (is_semic (tk lt)); eexists; reflexivity.
+Qed.
+
+(* the executable predicate implies the Prop one *)
+Lemma head_reflect a b rest :
+  Nat.eqb a 0 && Nat.ltb 0 b && rest = true -> a = 0 /\ 0 < b /\ rest = true.
+Proof.
+  rewrite !andb_true_iff. intros [[H1 H2] H3]. apply Nat.eqb_eq in H1. apply Nat.ltb_lt in H2. auto.
+Qed.
+
+Lemma child_reflect (n : nat) (o : option (stmt * nat)) :
+  opt_stmt_P (fun s => stmt_wf_b s = true -> stmt_wf s) o ->
+  match o with Some (c, off) => Nat.leb (off + i_e (stmt_info c)) n && stmt_wf_b c | None => true end = true ->
+  match o with Some (c, off) => off + i_e (stmt_info c) <= n /\ stmt_wf c | None => True end.
+Proof.
+  destruct o as [[c off]|]; [|intros; exact I]. cbn [opt_stmt_P]. intros IH H.
+  apply andb_true_iff in H as [H1 H2]. apply Nat.leb_le in H1. split; [exact H1 | exact (IH H2)].
+Qed.
+
+Lemma stmt_wf_reflect : forall s, stmt_wf_b s = true -> stmt_wf s.
+Proof.
+  induction s as [inf | v e inf | name args inf | c thn els inf IHt IHe | c b inf IHb | body inf IH | inf] using stmt_ind';
+    cbn [stmt_wf_b stmt_wf stmt_info]; intros H.
+  - apply head_reflect in H as (H1 & H2 & _). now repeat split.
+  - apply head_reflect in H as (H1 & H2 & _). now repeat split.
+  - apply head_reflect in H as (H1 & H2 & _). now repeat split.
+  - apply head_reflect in H as (H1 & H2 & H3). apply andb_true_iff in H3 as [Ht He].
+    repeat split; try assumption; [exact (child_reflect _ thn IHt Ht) | exact (child_reflect _ els IHe He)].
+  - apply head_reflect in H as (H1 & H2 & H3).
+    repeat split; try assumption. exact (child_reflect _ b IHb H3).
+  - apply head_reflect in H as (H1 & H2 & H3). repeat split; try assumption.
+    revert H3. induction body as [|[x o] r IHr]; intros H3; [exact I|].
+    inversion IH as [|? ? Hx Hr]; subst. cbn [fst] in Hx.
+    rewrite !andb_true_iff in H3. destruct H3 as [[Ha Hb] Hc]. apply Nat.leb_le in Ha.
+    split; [split; [exact Ha | exact (Hx Hb)] | exact (IHr Hr Hc)].
+  - apply head_reflect in H as (H1 & H2 & _). now repeat split.
+Qed.
+
+Lemma compl_wf_reflect d : compl_wf_b d = true -> compl_wf d.
+Proof.
+  unfold compl_wf_b, compl_wf. rewrite forallb_forall, Forall_forall. intros H go Hin. specialize (H go Hin).
+  unfold decl_cwf_b in H. rewrite !andb_true_iff in H. destruct H as [[[H1 H2] H3] H4].
+  apply Nat.eqb_eq in H1. apply Nat.ltb_lt in H2. apply Nat.leb_le in H3.
+  unfold decl_cwf. repeat split; try assumption.
+  destruct (fst go) as [td | pd | inf]; try exact I.
+  rewrite forallb_forall in H4. apply Forall_forall. intros co Hco. specialize (H4 co Hco).
+  unfold child_wf_b in H4. apply andb_true_iff in H4 as [Ha Hb]. apply Nat.leb_le in Ha.
+  split; [exact Ha | exact (stmt_wf_reflect _ Hb)].
+Qed.
+
+Theorem propose_no_panic d line col : compl_wf_b d = true -> exists r, propose d line col = ROk r.
+Proof. intros H. apply propose_total. now apply compl_wf_reflect. Qed.
